@@ -86,17 +86,17 @@ CLAIMED["C15"] = ("other", "Mixed: (proof) the atom-layer operators - EqualityMa
                   "than two values (for all names, literals, value sets); (bounded) the normal-form predicate (>= 2 distinct children, no empty/universal/same-kind child, groups of >= 2 values) on every result of the marker sweep. "
                   "The fix-point clause of of() is not expressible as an inductive invariant and stays bounded.", "5 C15", "string atoms only in the proof part; OrderedSet mixin operators modelled through the verified contract of OrderedSet.__init__",
                   "contract-based deductive verification of the atom layer (T-ATOM, SMT strings) + bounded normal-form sweep")
-CLAIMED["C02"] = ("other", "Mixed: (proof) the combinator layer - flatten_items, MultiMarker.of / MarkerUnion.of (three nested loops with invariants), cnf/dnf same-kind and leaf branches, intersection(), union(), "
+CLAIMED["C02"] = ("other", "Mixed: (proof) the combinator layer - flatten_items, MultiMarker.of / MarkerUnion.of (three nested loops with invariants), cnf/dnf (leaf and same-kind branches, and the distributive branch over itertools.product under a choice-function contract of product), intersection(), union(), "
                   "the &/| methods of AnyMarker/EmptyMarker/MultiMarker/MarkerUnion, MultiMarker.union_simplify / MarkerUnion.intersect_simplify (set algebra over members, comprehension invariant) - and the string-atom layer - MarkerExpression._evaluate against its specifier view (both operand orders), _merge_single_markers, MarkerExpression &/|, "
                   "EqualityMarkerUnion/InequalityMultiMarker replace/&/| over symbolic names, literals and value sets - are verified against 'result evaluates as the conjunction/disjunction of the operands' for all environments; "
                   "the merge logic for version-valued atoms (_merge_single_markers / _merge_python_version_single_markers: operator choice, equality shortcuts, re-wrapping through from_specifier) over abstract specifier views; "
-                  "(bounded) extras, in / not in on versions, and the distributive branch of cnf/dnf are assumed contracts, "
+                  "(bounded) extras and in / not in on versions are assumed contracts, "
                   "exercised by the run-time sweep of the same contract on real markers over the well-defined atom pool and an environment grid.",
                   "5 C02", "assumed (bounded) contracts listed in the evidence; law.C13; A-HASHSEED; recorded finding D14",
                   "contract-based deductive verification of the combinator layer (T-MARK, invariants, z3) + bounded stand-in for the atom layer")
 CLAIMED["C11"] = ("other", "Mixed: (proof, structured versions) MarkerExpression.from_specifier on python_version / python_full_version: for every single range with release-only bounds, every parsed ==P.* range and every parsed "
                   "!=P.* / !=V union the result is None or an atom whose (operator, value) clause denotes exactly the given specifier - the zero padding to X.Y.Z keeps the version, and never touches a ~= or wildcard operand - and the atom "
-                  "carries that very specifier as its view; _normalize_python_version_specifier admits exactly the full versions whose python_version satisfies the atom (all operators, values X / X.Y / X.Y.0, all integers); "
+                  "carries that specifier as its view only when the value is the specifier's own text (C10); _normalize_python_version_specifier admits exactly the full versions whose python_version satisfies the atom (all operators, values X / X.Y / X.Y.0, all integers); "
                   "_get_specifier parses the atom's own clause; _evaluate on a version atom (both operand orders) holds exactly when the environment's value lies in the specifier view; (bounded) both directions on real objects: specifier view vs evaluate() for every listed atom shape (comparison, ~=, wildcard, in / not in) over the interpreter grid X.Y.Z, "
                   "from_specifier of simple specifiers re-evaluated on the grid.", "5 C11", "A-VER, A-PKG-PARSE; PEP 440 clause meaning on release-only versions written out in contracts/pyversion.py; _evaluate on versions (A-PKG-CONTAINS) and in/not in bounded only; finding D14",
                   "contract-based deductive verification of from_specifier (T-VER, z3 with deterministic instantiation) + bounded bridge sweep")
